@@ -82,7 +82,7 @@ def direct_vars(m, q, p, names):
                   and implies(has_key(m, k), m[k] == (vm_val(q, names, k) if vm_has(q, names, k) else (vb_val(q, p, k) if vb_has(q, p, k) else va_val(q, p, k)))))
 
 
-@contract('rbql_engine.TableIterator.get_variables_map', name='C09.vars.table', props=['C09'], store_policy='none')
+@contract('rbql_engine.TableIterator.get_variables_map', name='C09.vars.table', props=['C09', 'C07'], store_policy='none')
 def _(self: Obj['rbql_engine.TableIterator'], query_text: Str) -> VMap:
     assumes(implies(not is_none(self.column_names), shapes_disjoint(query_text, self.variable_prefix, contents(opt_val(self.column_names)))), 'A-PARSE-VARS: spellings of different kinds never coincide')
     assumes(forall(Str, lambda k: not (vb_has(query_text, self.variable_prefix, k) and va_has(query_text, self.variable_prefix, k))), 'A-PARSE-VARS: aN and a[N] never coincide')
